@@ -322,6 +322,16 @@ def visitStarts (r : Root) (buf : List Id) : List Id → Except Panic (Root × L
     | none => .error .cyclic
     | some (r, buf) => visitStarts (markDependentsDirty r s) buf ss
 
+/-- between the two loops of `propagate_node_updates`: the start nodes were written, not scheduled,
+and are never re-run; their marks are reset before the update loop starts (so that a write to one
+of them made by a computation of this propagation traverses its dependents) -/
+def resetMarks (r : Root) : List Id → Root
+  | [] => r
+  | s :: ss =>
+    match r.get? s with
+    | none => resetMarks r ss
+    | some n => resetMarks (r.setNode s { n with mark := .none }) ss
+
 /-! ### functions that run user code (one fuel, consumed at every call) -/
 
 mutual
@@ -587,7 +597,7 @@ def propagateNodeUpdates : Nat → Root → List Id → Except Panic Root
     -- traverse the reactive graph
     match visitStarts r [] starts with
     | .error e => .error e
-    | .ok (r, buf) => propagateLoop fuel r buf.reverse
+    | .ok (r, buf) => propagateLoop fuel (resetMarks r starts) buf.reverse
 
 /-- `Root::propagate_updates` -/
 def propagateUpdates : Nat → Root → Id → Except Panic Root
